@@ -338,7 +338,15 @@ type runOutcome struct {
 	X          *X
 	Abandoned  int
 	HarnessErr string // panic in harness/root code: build/harness trouble, not a violation
+	Stuck      bool   // the bubble made no progress in real time (simulator wedge): inconclusive, abandoned
 }
+
+// stuckLimit: real time one run may take. A bubble can wedge for good when a goroutine waits
+// on a standard-library mutex (not a durable block for synctest) whose holder waits for the
+// simulated network (DESIGN section 0): virtual time and the driver both stop. Such a run is
+// abandoned (its goroutines stay parked, nothing of it is merged) and counted as stuck.
+var stuckLimit = 30 * time.Second
+var stuckDumped atomic.Bool
 
 var silenceOnce sync.Once
 
@@ -400,7 +408,17 @@ func execRun(t *testing.T, sc *Scenario, x *X) (out runOutcome) {
 			sc.Run(x)
 		})
 	}()
-	<-finished
+	select {
+	case <-finished:
+	case <-time.After(stuckLimit): // real time: this goroutine is outside the bubble
+		out.Stuck = true
+		if stuckDumped.CompareAndSwap(false, true) {
+			buf := make([]byte, 1<<20)
+			n := runtime.Stack(buf, true)
+			fmt.Fprintf(os.Stderr, "STUCK RUN (%s): no end after %v of real time; abandoned. First dump:\n%s\n", sc.Name, stuckLimit, buf[:n])
+		}
+		return out
+	}
 	if x.PostCheck != nil {
 		pc := x.PostCheck
 		x.PostCheck = nil
@@ -465,6 +483,8 @@ type Result struct {
 	NontrivialRun uint64            `json:"nontrivial_runs"`
 	Sites         map[string]int    `json:"sites"`
 	Abandoned     int               `json:"abandoned"`
+	Stuck         int               `json:"stuck"`
+	StuckRuns     []string          `json:"stuck_runs,omitempty"`
 	Adopted       int               `json:"adopted"`
 	HarnessErrs   []string          `json:"harness_errors"`
 	Violations    []*FoundViolation `json:"violations"`
@@ -519,7 +539,7 @@ func minimise(t *testing.T, sc *Scenario, job *Job, trace choice.Trace, prop, fp
 		x := newX(sc.Name, choice.Replay(cand))
 		x.Prop, x.Tier = job.Property, job.Tier
 		out := execRun(t, sc, x)
-		if out.HarnessErr != "" {
+		if out.HarnessErr != "" || out.Stuck {
 			return nil, false
 		}
 		if hasFingerprint(x, prop, fp) {
@@ -532,7 +552,7 @@ func minimise(t *testing.T, sc *Scenario, job *Job, trace choice.Trace, prop, fp
 				runs++
 				y := newX(sc.Name, choice.Replay(eff))
 				y.Prop, y.Tier = job.Property, job.Tier
-				if o := execRun(t, sc, y); o.HarnessErr != "" || !hasFingerprint(y, prop, fp) {
+				if o := execRun(t, sc, y); o.HarnessErr != "" || o.Stuck || !hasFingerprint(y, prop, fp) {
 					return nil, false
 				}
 			}
@@ -826,6 +846,10 @@ func doReplay(t *testing.T, job *Job) {
 		x = newX(sc.Name, choice.Replay(rf.Choices))
 		x.Prop, x.Tier, x.KeepLog = rf.Property, rf.Tier, true
 		out = execRun(t, sc, x)
+		if out.Stuck {
+			x = newX(sc.Name, choice.Replay(rf.Choices)) // nothing of a stuck run is used
+			break
+		}
 		if hasFingerprint(x, rf.Property, rf.Fingerprint) || tries >= job.Repeat {
 			break
 		}
@@ -884,6 +908,13 @@ outer:
 				if x.S != nil {
 					fmt.Fprintf(os.Stderr, "%s\n", strings.Join(x.S.Trace, "\n"))
 				}
+			}
+			if out.Stuck {
+				res.Stuck++
+				if len(res.StuckRuns) < 5 {
+					res.StuckRuns = append(res.StuckRuns, fmt.Sprintf("%s#%d", sr.Name, i))
+				}
+				continue
 			}
 			res.Runs++
 			res.RunsByScen[sr.Name]++
